@@ -6,6 +6,9 @@ run() { (cd "$W" && PYTHONPATH="$W/src" PYTHONHASHSEED=0 timeout 600 /venv/bin/p
 c=$(run); echo "clean demo exit=$c"
 git -C "$W" apply "$D/patch.diff" || { echo "PATCH DOES NOT APPLY"; git -C /repo worktree remove --force "$W"; exit 2; }
 m=$(run); echo "mutant demo exit=$m: $(tail -2 /tmp/conf_$$.out | tr '\n' ' ' | cut -c1-200)"
-t=$(cd "$W" && PYTHONPATH="$W/src" /venv/bin/python -m pytest -q -p no:cacheprovider --timeout=900 --continue-on-collection-errors 2>&1 | tail -1)
-echo "pytest with mutant: $t"
+(cd "$W" && PYTHONPATH="$W/src" /venv/bin/python -m pytest -q -ra -p no:cacheprovider --timeout=900 --continue-on-collection-errors > /tmp/conf_$$.py 2>&1)
+echo "pytest with mutant: $(tail -1 /tmp/conf_$$.py)"
+# failures other than the 6 that fail on the unchanged code (x13 x5, logistic)
+grep -E "^(FAILED|ERROR) " /tmp/conf_$$.py | grep -v "x13_test\|logistic\|^ERROR tests/\(databoxes_fixme\|dataslates\|gimm\|plans\|sources\)" | sed 's/^/  unexpected: /' | cut -c1-200
+rm -f /tmp/conf_$$.py
 git -C /repo worktree remove --force "$W"; rm -f /tmp/conf_$$.out
